@@ -47,9 +47,9 @@ func c20Blocks(tier string) int {
 	return (n + c20BlockLen - 1) / c20BlockLen
 }
 
-func runClimate(elev float64, dry, hum []float64) (*MOut, error) {
+func runClimate(c *core.Ctx, elev float64, dry, hum []float64) (*MOut, error) {
 	run := &MRun{Model: "ClimateVariables", N: 1, T: len(dry), Sets: []PSet{{{elev}}}, Inputs: [][][]float64{{dry, hum}}}
-	return Execute(run)
+	return ExecuteFor(c, run)
 }
 
 func checkPoint(c *core.Ctx, elev, T, rh, vp, dew, wb, dT float64) {
@@ -93,7 +93,7 @@ func c20Grid(c *core.Ctx) {
 	// humidity axis per temperature
 	for ti := t0; ti < t1; ti++ {
 		T := -40 + float64(ti)*dT
-		out, err := runClimate(elev, constSeries(len(hums), T), hums)
+		out, err := runClimate(c, elev, constSeries(len(hums), T), hums)
 		if err != nil {
 			c.Violate("prepare", "ClimateVariables", err.Error())
 			return
@@ -115,7 +115,7 @@ func c20Grid(c *core.Ctx) {
 	if temps[0] <= 0 && temps[len(temps)-1] >= 0 {
 		c.Tag("freezing-point-pair")
 	}
-	out, err := runClimate(elev, temps, constSeries(len(temps), 50))
+	out, err := runClimate(c, elev, temps, constSeries(len(temps), 50))
 	if err != nil {
 		c.Violate("prepare", "ClimateVariables", err.Error())
 		return
@@ -166,7 +166,7 @@ func c20Random(c *core.Ctx) {
 	}
 	c.Begin(map[string]interface{}{"model": "ClimateVariables", "elevation": elev, "dryBulb": dry, "humidity": hum})
 	c.Class(fmt.Sprintf("random/%d", int(elev/1000)))
-	out, err := runClimate(elev, dry, hum)
+	out, err := runClimate(c, elev, dry, hum)
 	if err != nil {
 		c.Violate("prepare", "ClimateVariables", err.Error())
 		return
@@ -179,7 +179,7 @@ func c20Random(c *core.Ctx) {
 	for k := 0; k < 50; k++ {
 		t := c.R.Range(-40, 54.9)
 		e := c.R.LogRange(1e-6, 0.05)
-		o2, _ := runClimate(elev, []float64{t, t + e}, []float64{50, 50})
+		o2, _ := runClimate(nil, elev, []float64{t, t + e}, []float64{50, 50})
 		if !(o2.Out[0][0][1] > o2.Out[0][0][0]) {
 			c.Violate("vp-not-increasing", "ClimateVariables", fmt.Sprintf("vaporPressure(%v)=%v is not above vaporPressure(%v)=%v", t+e, o2.Out[0][0][1], t, o2.Out[0][0][0]))
 		}
@@ -204,7 +204,7 @@ func c20Long(c *core.Ctx) {
 		h = math.Max(0.05, math.Min(100, h+r.Range(-10, 10)))
 		dry[i], hum[i] = t, h
 	}
-	out, err := runClimate(elev, dry, hum)
+	out, err := runClimate(c, elev, dry, hum)
 	if err != nil {
 		c.Violate("prepare", "ClimateVariables", err.Error())
 		return
